@@ -86,7 +86,14 @@ def run_case(case):
                 first = tf
             if tf.source_str != text:
                 add("source_str", {}, {"variant": vi})
-            tplfam.check_slices(tf, add, vi)
+            un = vi > 0 and one.get("k") == "jinja" and tplfam.if_inside_for(tf)
+
+            def addv(clause, features, detail, _un=un):
+                # structural feature of the failing execution: an alternate (unreached-code) variant of a
+                # template with an if nested inside a for loop -- the known variant-rectification call site
+                add(clause, dict(features, unreached_variant_with_if_inside_for=True) if _un else features, detail)
+
+            tplfam.check_slices(tf, addv, vi)
             if any(s.slice_type != "literal" for s in tf.sliced_file):
                 nt = True
             res["cls"].add(digest(tuple((s.slice_type, s.source_slice.start, s.source_slice.stop, s.templated_slice.start, s.templated_slice.stop) for s in tf.sliced_file)))
